@@ -58,7 +58,14 @@ fn related_artifacts() -> BoxedStrategy<(Artifacts, Artifacts, Vec<(String, Arti
                     Some(pre) => format!("{}/{}", pre, p),
                     None => p.clone(),
                 };
-                let dig = if k % 2 == 0 { orig.clone() } else { d.clone() };
+                // (every fifth variation: the original digest values cut to their first half - a proper prefix is not equality)
+                let dig = if k % 5 == 4 {
+                    orig.iter().map(|(alg, v)| (alg.clone(), v[..(v.len() / 2) & !1].to_string())).collect()
+                } else if k % 2 == 0 {
+                    orig.clone()
+                } else {
+                    d.clone()
+                };
                 sets[target].insert(path, dig);
             }
             if many > 0 {
